@@ -227,10 +227,11 @@ def part_b(run):
     for c in cases:
         gendrv_request(c, fac.work)
     ind = os.path.join(fac.work, "in")
-    def attribute_for(c, o, sp, cid):
+    def attribute_for(c, o, sp, cid, abs_schema=False):
         keys = []
         st = lambda v: lit(v, rng.choice(["plain", "plain", "raw", "hash-raw", "escaped"]))[0]
-        keys.append("schema_path = %s" % st("../in/" + sp))
+        # an absolute schema path (a schema shared outside the crate) resolves to itself against any directory
+        keys.append("schema_path = %s" % st(os.path.join(ind, sp) if abs_schema else "../in/" + sp))
         keys.append("query_path = %s" % st("../in/" + cid + ".query.graphql"))
         for k, a in (("response_derives", "response_derives"), ("variables_derives", "variables_derives"), ("normalization", "normalization"),
                      ("deprecation", "deprecated"), ("custom_scalars_module", "custom_scalars_module")):
@@ -256,7 +257,10 @@ def part_b(run):
         cid = c["id"]
         o = c["options"]
         sp = [f for f in os.listdir(ind) if f.startswith(cid + ".schema.")][0]
-        attr, sname = attribute_for(c, o, sp, cid)
+        abs_schema = (ci % 4 == 3)
+        if abs_schema:
+            run.count("absolute-schema-paths")
+        attr, sname = attribute_for(c, o, sp, cid, abs_schema=abs_schema)
         # the consumer's extern enum / scalar support follows the normalisation actually in force
         eff_norm = "rust" if (o.get("normalization") or "").lower().strip() == "rust" else "none"
         sup_opts = dict(o, normalization=eff_norm)
@@ -280,7 +284,7 @@ def part_b(run):
             written[cid] = {"attr": attr + "// twin:\n" + attr2, "schema_rel": "../in/" + sp, "query_rel": "../in/" + cid + ".query.graphql", "struct": sname}
         else:
             srcs[cid] = support_code(c) + attr
-            written[cid] = {"attr": attr, "schema_rel": "../in/" + sp, "query_rel": "../in/" + cid + ".query.graphql", "struct": sname}
+            written[cid] = {"attr": attr, "schema_rel": os.path.join(ind, sp) if abs_schema else "../in/" + sp, "query_rel": "../in/" + cid + ".query.graphql", "struct": sname}
     # rustc runs somewhere else than in the manifest directory (as under cargo in a workspace), and from there the same
     # relative paths lead to other files: whoever resolves a path against the working directory reads these
     elsewhere = os.path.join(fac.work, "elsewhere", "cwd")
